@@ -837,6 +837,21 @@ def separate_rule(ctx, d6):
         same_pkg = rimplied(p, lambda t: t in ('(self._chemicals is %s.chemicals)' % o, '(%s.chemicals is self._chemicals)' % o))
         is_mat = implied(p.conds, lambda e: isinstance(e, ast.Call) and 'MaterialIndexer' in src(e))
         same_ph = rimplied(p, lambda t: t in ('(self._phases == %s.phases)' % o, '(%s.phases == self._phases)' % o))
+        if same_pkg is None or same_ph is None:
+            # the tests may be kept in flag locals and combined (`if same_phases and same_chemicals: ... elif same_phases: ...`): what the
+            # branch history as a whole entails
+            from ..pathcond import entailed, resolved_conds
+            rc = resolved_conds(p, keep=set(mf.params))
+            SELF_CH, OTH_CH = {'self._chemicals', 'self.chemicals'}, {'%s.chemicals' % o, '%s._chemicals' % o}
+            SELF_PH, OTH_PH = {'self._phases', 'self.phases'}, {'%s.phases' % o, '%s._phases' % o}
+
+            def cmp_(t, ops, A, B):
+                return isinstance(t, ast.Compare) and len(t.ops) == 1 and isinstance(t.ops[0], ops) and (
+                    (src(t.left) in A and src(t.comparators[0]) in B) or (src(t.left) in B and src(t.comparators[0]) in A))
+            if same_pkg is None:
+                same_pkg = entailed(rc, lambda t: cmp_(t, ast.Is, SELF_CH, OTH_CH), lambda t: cmp_(t, ast.IsNot, SELF_CH, OTH_CH))
+            if same_ph is None:
+                same_ph = entailed(rc, lambda t: cmp_(t, ast.Eq, SELF_PH, OTH_PH), lambda t: cmp_(t, ast.NotEq, SELF_PH, OTH_PH))
         key = 'multi-phase operand=%s, same phases=%s, same package=%s' % (is_mat, same_ph, same_pkg)
         skip = any(e.kind == 'continue' for e in p.events) \
             or implied(p.conds, lambda e: isinstance(e, ast.Call) and isinstance(e.func, ast.Attribute) and e.func.attr == 'any' and not e.args
